@@ -132,6 +132,20 @@ theorem nameDefs_mem {IN OUT : St Def} {a : NameAnno} (h : nameDefsOK IN OUT a =
   rw [this]
   simp [List.mem_filter, hd]
 
+/-- the annotation of a Name *load* was taken from `in_` of the CFG node `n` that evaluates the Name.  (`nameDefsOK`
+checks it against the node whose state `TreeAnnotator` really used; the two differ on the pinned tree for the names in
+the default values / annotations of a nested `def`, which are annotated from the nested function's own — empty — entry
+state although the enclosing function evaluates them: finding class `read_in_default_of_nested_def`.) -/
+def nameDefsAtEval (IN : St Def) (a : NameAnno) (n : Nat) : Bool :=
+  setEqB a.defs ((IN n).filter (fun d => d.1 == a.var))
+
+theorem nameDefsAtEval_mem {IN : St Def} {a : NameAnno} {n : Nat} (h : nameDefsAtEval IN a n = true)
+    (d : Nat) (hd : (a.var, d) ∈ IN n) : (a.var, d) ∈ a.defs := by
+  simp only [nameDefsAtEval] at h
+  have := (setEqB_spec _ _).mp h (a.var, d)
+  rw [this]
+  simp [List.mem_filter, hd]
+
 /-! ### Concrete traces: decidable hypotheses of the soundness theorem (= finding classes when false) -/
 
 def Trace.writesB (T : Trace) (m v : Nat) : Bool := match T[m]? with | some s => s.writes.contains v | none => false
